@@ -829,16 +829,24 @@ def run_generation(gen_spec, index):
 
     while open_calls() and time.monotonic() < deadline:
         time.sleep(0.05)
+    if open_calls() and STACK_FILE is not None:
+        # a client call that is still open now is stuck: record where
+        STACK_FILE.write("--- open client calls at the end of generation %d ---\n" % index)
+        faulthandler.dump_traceback(file=STACK_FILE, all_threads=True)
+        STACK_FILE.flush()
     LOG("generation-end", gen=index, running_flag=world.runner.running.is_set())
 
 
+STACK_FILE = None
+
+
 def main():
-    global LOG
+    global LOG, STACK_FILE
     spec_file, events_file = sys.argv[1:3]
     with open(spec_file) as f:
         spec = json.load(f)
     LOG = Log(events_file)
-    stack_file = open(events_file + ".stacks", "w")
+    stack_file = STACK_FILE = open(events_file + ".stacks", "w")
     faulthandler.enable(file=stack_file)
     faulthandler.dump_traceback_later(spec.get("watchdog", 20), exit=True, file=stack_file)
     inj = None
